@@ -38,7 +38,13 @@ def run(chk):
     chk.assume_note('a rejected batch may be rejected with a different StateError in a different order; the property '
                     'speaks about accept/reject and the resulting state only')
     for shape in shapes_for(chk.tier):
-        kernel_orders(chk, it, shape)
+        # create_next_state only looks at the kind to tell faucets apart: the kinds are enumerated (faucet or not),
+        # everything else stays symbolic
+        combos = [('Normal',) * len(shape), ('Faucet',) + ('Normal',) * (len(shape) - 1)]
+        if chk.tier != 'quick':
+            combos.append(('Faucet',) * len(shape))
+        for kinds in combos:
+            kernel_orders(chk, it, shape, kinds)
     reducers(chk, it)
     closure_purity(chk, it)
 
@@ -58,8 +64,8 @@ def sym_relevant_coins(st, it, txs, tag):
     return Opaque('Map', mm)
 
 
-def kernel_orders(chk, it, shape):
-    tag = '+'.join('%d.%d' % (a, b) for a, b, c in shape)
+def kernel_orders(chk, it, shape, kinds):
+    tag = '+'.join('%d.%d%s' % (a, b, k[0]) for (a, b, c), k in zip(shape, kinds))
     n = len(shape)
     orders = list(itertools.permutations(range(n)))
     # ---- create_next_state commutes
@@ -70,7 +76,7 @@ def kernel_orders(chk, it, shape):
     B.install_coin_invariants(it, B.cdh_covhash)
     txs, inputs = [], dict(('st_' + k, v) for k, v in sterms.items())
     for i, (ni, no, nc) in enumerate(shape):
-        tx, tt = B.sym_tx('tx' + 'abcdef'[i], ni, no, nc, st.pc)
+        tx, tt = B.sym_tx('tx' + 'abcdef'[i], ni, no, nc, st.pc, kind=kinds[i])
         txs.append(tx)
         for k, v in tt.items():
             inputs['tx%s_%s' % ('abcdef'[i], k)] = v
@@ -121,6 +127,8 @@ def kernel_orders(chk, it, shape):
     for cname, alts in covers.items():
         chk.cover_any('%s/create_next_state/%s' % (cname, tag), alts)
     # ---- load_relevant_coins / load_stake_info give the same set-valued result in every order
+    if kinds[0] != 'Normal' or any(k != 'Normal' for k in kinds[1:]):
+        return
     for kname in ('load_relevant_coins', 'load_stake_info'):
         G.reset()
         G.atomic_domains = {'single:Transaction'}
